@@ -38,6 +38,7 @@ type caseT struct {
 	Download   string      `json:"download"` // publish | select | file
 	SelectRe   string      `json:"select_re,omitempty"`
 	SelectFile string      `json:"select_file,omitempty"`
+	Reuse      bool        `json:"reuse_bundle_object,omitempty"` // metadata is loaded more than once on one Bundle object
 }
 
 func drawCase(t *rapid.T) caseT {
@@ -95,6 +96,7 @@ func drawCase(t *rapid.T) caseT {
 		c.Skip = rapid.Bool().Draw(t, "skip")
 	}
 	c.Download = rapid.SampledFrom([]string{"publish", "publish", "select", "file"}).Draw(t, "download")
+	c.Reuse = rapid.IntRange(0, 3).Draw(t, "reuse") == 0
 	switch c.Download {
 	case "select":
 		c.SelectRe = rapid.SampledFrom([]string{"^a", "dir", `\.`, "^$", ".*", "b$", "[ünï名]", "^[^/]*$", "/.*/"}).Draw(t, "re")
@@ -233,9 +235,31 @@ func runCase(c caseT) error {
 		sort.Strings(missing)
 		return fmt.Errorf("bundle lists %d entries, want %d; missing %q", len(seen), len(expected), missing)
 	}
+	if c.Reuse {
+		// a library user may keep the Bundle object: loading the metadata again must give the same entries
+		first := append([]model.BundleEntry{}, mb.BundleEntries...)
+		if err := core.VerifPublishMetadata(ctx, mb, false, c.EPF); err != nil {
+			return fmt.Errorf("download metadata (second load on the same Bundle): %v", err)
+		}
+		if len(mb.BundleEntries) != len(first) {
+			return fmt.Errorf("second metadata load on the same Bundle lists %d entries, first load %d", len(mb.BundleEntries), len(first))
+		}
+		for i := range first {
+			a, b := first[i], mb.BundleEntries[i]
+			if a.Hash != b.Hash || a.NameWithPath != b.NameWithPath || a.Size != b.Size || a.FileMode != b.FileMode || !a.Timestamp.Equal(b.Timestamp) {
+				return fmt.Errorf("second metadata load on the same Bundle: entry %d is %+v, was %+v", i, mb.BundleEntries[i], first[i])
+			}
+		}
+	}
 	// ---- download
 	dst := sc.Dir("dst")
 	db := hx.NewBundle("repo", v.Stores, hx.Local(dst), 0, core.BundleID(id), core.ConcurrentFileDownloads(c.DownConc), core.ConcurrentFilelistDownloads(c.DownConc))
+	if c.Reuse {
+		// list first (as `bundle list files` does), then download with the same object
+		if err := core.VerifPublishMetadata(ctx, db, false, c.EPF); err != nil {
+			return fmt.Errorf("download metadata before publish: %v", err)
+		}
+	}
 	want := hx.Tree{}
 	switch c.Download {
 	case "publish":
@@ -339,7 +363,7 @@ func (c caseT) classes() (sig string, nontrivial bool) {
 	}
 	nidx := (n + int(c.EPF) - 1) / int(c.EPF)
 	nontrivial = multi || nidx >= 2 || decoy || c.Download != "publish" || c.Mode == "keys"
-	sig = fmt.Sprintf("n=%s epf=%d b=%s mode=%s skip=%v dl=%s decoy=%v multi=%v", cnt, c.EPF, bclass, c.Mode, c.Skip, c.Download, decoy, multi)
+	sig = fmt.Sprintf("n=%s epf=%d b=%s mode=%s skip=%v dl=%s decoy=%v multi=%v reuse=%v", cnt, c.EPF, bclass, c.Mode, c.Skip, c.Download, decoy, multi, c.Reuse)
 	return
 }
 
